@@ -167,3 +167,19 @@ def finish(prop_id, tier, seed, t0, tlc, graph, paths, observed, verdict, drift_
     core.write_evidence(prop_id, tier, seed, "model_checking", cov, assumptions,
                         time.time() - t0, len(verdict["violations"]))
     return rc
+
+
+def paths_from_replay(replay_file, pf):
+    """Turns a saved replay (an observed trace) back into a one-path input
+    for the driver, so that it is re-executed against the working tree."""
+    d = json.load(open(replay_file))
+    tr = d["trace"]
+    steps = [{"act": s["act"], "obs": s["obs"], "viol": []} for s in tr["steps"] if not s.get("note")]
+    with open(pf, "w") as f:
+        f.write(json.dumps({"id": 0, "init_obs": tr.get("init_obs"), "steps": steps}) + "\n")
+    return 1
+
+
+class _NoTLC:
+    generated = distinct = depth = 0
+    wall = 0.0
